@@ -85,14 +85,29 @@ EvalNode(wf, nd, info) ==
       outv(k) == LET idx == SelectSeq([i \in 1..Len(R) |-> i], LAMBDA i : keyOf(i) = k) IN
                  IF clos = {} THEN jobs[idx[1]] ELSE ListOf([j \in 1..Len(idx) |-> jobs[idx[j]]])
       (* structural classes used ONLY to name recorded known findings (DESIGN section 7) *)
-      cD == \E i, j \in 1..Len(ups) : i # j /\ info[ups[i].v].rem \cap info[ups[j].v].rem # {}
+      ancOf(k) == info[ups[k].v].anc \cup {ups[k].v}
+      shared(i, j) == info[ups[i].v].rem \cap info[ups[j].v].rem
+      related(i, j) == ups[i].v \in info[ups[j].v].anc \/ ups[j].v \in info[ups[i].v].anc
+      (* cD: the recorded finding class "repeated upstream state".  Either a true diamond (two upstream
+         nodes sharing an originating axis, neither derived from the other), or "direct + via" where the
+         via node split further or combined on the way, or the shared axis is combined here.  A plain
+         triangle d(x = a.out, y = f(a.out)) (f without splitter/combiner) is NOT in the class: pydra aligns it. *)
+      (* the one shape of repeated upstream state that pydra aligns: an upstream node with a state of its
+         own only (no inherited axes) plus a node fed DIRECTLY by it that neither splits nor combines *)
+      simple(i, j) == /\ info[ups[i].v].anc = {}
+                      /\ ups[i].v \in info[ups[j].v].direct
+                      /\ info[ups[j].v].rem = info[ups[i].v].rem
+                      /\ ~info[ups[i].v].combined /\ ~info[ups[j].v].combined /\ ~info[ups[j].v].ownsplit
+      cD == \E i, j \in 1..Len(ups) : i # j /\ shared(i, j) # {} /\
+              (~(simple(i, j) \/ simple(j, i)) \/ comb \cap shared(i, j) # {})
       cP == \E i \in 1..Len(ups) : info[ups[i].v].partial
       cI == nd.hassplit /\ \E a \in comb : a[1] # nm
       prodUps == FoldFunction(LAMBDA a, b : a * b, 1, [k \in 1..Len(ups) |-> Len(info[ups[k].v].keys)])
   IN [ok |-> ok, keys |-> keys, rem |-> rem, out |-> [k \in Range(keys) |-> outv(k)],
       zrem |-> {g \ clos : g \in zg} \ {{}}, njobs |-> Len(R), combined |-> clos # {},
       partial |-> (clos # comb \cap allaxes), cD |-> cD, cP |-> cP, cI |-> cI,
-      noalign |-> prodUps * (IF nd.hassplit THEN Len(ex) ELSE 1), allaxes |-> allaxes]
+      noalign |-> prodUps * (IF nd.hassplit THEN Len(ex) ELSE 1), allaxes |-> allaxes,
+      anc |-> UNION {ancOf(k) : k \in 1..Len(ups)}, direct |-> {ups[k].v : k \in 1..Len(ups)}, ownsplit |-> nd.hassplit]
 
 RECURSIVE EvalFrom(_, _, _)
 EvalFrom(wf, i, info) ==
